@@ -553,6 +553,23 @@ func (c *Ctx) checkGroupOrder() {
 		for i, e := range t.Events {
 			if e.Kind == EvCall && e.Callee != nil && (strings.Contains(e.Callee.String(), "slices.SortFunc") || strings.Contains(e.Callee.String(), "sort.Slice") || strings.Contains(e.Callee.String(), "slices.SortStableFunc")) {
 				// the sorted slice is the one returned
+				// an unstable sort that compares shard indexes only may reorder what compares equal: harmless for the
+				// groups (one element per shard), but applied to individual keys it loses the caller's order of the keys
+				// of one shard — two callers that list their keys consistently can then take them in opposite orders
+				if len(e.Args) >= 1 && !strings.Contains(e.Callee.String(), "Stable") && ok {
+					if st := sortedElemStruct(e.Args[0].strip()); st != nil {
+						perShard := false
+						for fi := 0; fi < st.NumFields(); fi++ {
+							if _, isSl := st.Field(fi).Type().Underlying().(*types.Slice); isSl {
+								perShard = true
+							}
+						}
+						if !perShard {
+							ok = false
+							c.violated("C02.group-order", cons, e.Pos, "an unstable sort orders individual keys by their shard index: keys of one shard come out in an arbitrary order (for more than 12 elements), so the per-key locks inside a shard are no longer taken in the caller's list order", c.witness(t, i)...)
+						}
+					}
+				}
 				sameSlice := len(e.Args) >= 2 && e.Args[0].strip().root().Key() == t.Ret[0].root().Key()
 				if !sameSlice && len(e.Args) >= 2 {
 					// the slice variable is captured by the comparator (sort.Slice): it lives in a cell of its own, the value
@@ -743,4 +760,21 @@ func (c *Ctx) acquiresKeyLock(fn *ssa.Function, depth int) bool {
 		}
 	}
 	return false
+}
+
+// sortedElemStruct: the struct type of the elements of a slice value handed to a sort (nil if not a slice of structs).
+func sortedElemStruct(v *Sym) *types.Struct {
+	if v == nil || v.Typ == nil {
+		return nil
+	}
+	t := v.Typ
+	if p, ok := t.Underlying().(*types.Pointer); ok {
+		t = p.Elem()
+	}
+	sl, ok := t.Underlying().(*types.Slice)
+	if !ok {
+		return nil
+	}
+	st, _ := sl.Elem().Underlying().(*types.Struct)
+	return st
 }
